@@ -16,13 +16,14 @@ struct Spec {
     double R0 = 1e-5, Rmax = 1.3, ref = 0.0;
     int nr_exp = 4, ntheta_exp = -1, aniso = 0, div2 = 0, maxlev = -1;
     std::string fault;
+    std::string via = "file"; // fault cases: through the file constructor or the array constructor
     int pos = 0;
     std::string str() const
     {
         std::ostringstream os;
         os.precision(17);
         os << "kind=" << kind << " R0=" << R0 << " Rmax=" << Rmax << " ref=" << ref << " nr_exp=" << nr_exp << " ntheta_exp=" << ntheta_exp
-           << " aniso=" << aniso << " div2=" << div2 << " maxlev=" << maxlev << " fault=" << (fault.empty() ? "-" : fault) << " pos=" << pos;
+           << " aniso=" << aniso << " div2=" << div2 << " maxlev=" << maxlev << " fault=" << (fault.empty() ? "-" : fault) << " pos=" << pos << " via=" << via;
         return os.str();
     }
 };
@@ -42,6 +43,23 @@ static std::string validGrid(const PolarGrid& g, double R0, double Rmax, bool ge
     for (int i = 0; i < nr; i++)
         if (!std::isfinite(r[i]))
             return "non-finite radius";
+    // every grid, generated or given: positive radii, angles from 0 to 2 pi strictly increasing, an even number of them, each
+    // with its antipode half the array further on (the across-origin stencil and wrap(i + ntheta/2) rely on exactly this)
+    if (!(r[0] > 0))
+        return "non-positive radius";
+    for (int j = 0; j <= nt; j++)
+        if (!std::isfinite(a[j]))
+            return "non-finite angle";
+    for (int j = 0; j < nt; j++)
+        if (!(a[j] < a[j + 1]))
+            return "angles not strictly increasing at " + std::to_string(j);
+    if (std::fabs(a[0]) > 1e-10 || std::fabs(a[nt] - 2 * M_PI) > 1e-10)
+        return "angles do not run from 0 to 2 pi";
+    if (nt % 2)
+        return "odd number of angles: nodes have no antipode";
+    for (int j = 0; j < nt / 2; j++)
+        if (std::fabs(a[j + nt / 2] - a[j] - M_PI) > 1e-10)
+            return "angle " + std::to_string(j) + " has no antipode at index + ntheta/2";
     if (generated) {
         if (r.front() != R0)
             return "first radius is not exactly R0";
@@ -245,6 +263,72 @@ static std::string runSpec(const Spec& s)
                 if (s.pos < (int)rt.size())
                     rt[s.pos] = "nan";
             }
+            else if (s.fault.rfind("angle-", 0) == 0 || s.fault == "nan-angle") {
+                const int na = (int)tt.size();
+                const int p  = s.pos;
+                auto num     = [&](int i) { return g.angles()[i]; };
+                auto str     = [](double v) {
+                    std::ostringstream os;
+                    os.precision(17);
+                    os << v;
+                    return os.str();
+                };
+                if (p < na) {
+                    if (s.fault == "angle-shift") // towards the next angle (the last one: back towards its predecessor)
+                        tt[p] = str(p + 1 < na ? num(p) + 0.37 * (num(p + 1) - num(p)) : num(p) - 0.37 * (num(p) - num(p - 1)));
+                    else if (s.fault == "angle-pair-shift") { // node and antipode together: still a valid grid
+                        const int nt2 = (na - 1) / 2;
+                        if (p > 0 && p < nt2) {
+                            tt[p]       = str(num(p) + 0.37 * (num(p + 1) - num(p)));
+                            tt[p + nt2] = str(num(p) + 0.37 * (num(p + 1) - num(p)) + M_PI);
+                        }
+                    }
+                    else if (s.fault == "angle-insert") {
+                        if (p + 1 < na)
+                            tt.insert(tt.begin() + p + 1, str(0.5 * (num(p) + num(p + 1))));
+                        else
+                            tt.push_back(str(num(p) + 0.1));
+                    }
+                    else if (s.fault == "angle-delete")
+                        tt.erase(tt.begin() + p);
+                    else if (s.fault == "angle-duplicate") {
+                        if (p + 1 < na)
+                            tt[p + 1] = tt[p];
+                    }
+                    else if (s.fault == "angle-swap") {
+                        if (p + 1 < na)
+                            std::swap(tt[p], tt[p + 1]);
+                    }
+                    else if (s.fault == "angle-negative")
+                        tt[p] = "-" + tt[p];
+                    else if (s.fault == "nan-angle")
+                        tt[p] = "nan";
+                }
+            }
+            if (s.via == "array") {
+                // the same (numeric) fault through PolarGrid(radii, angles)
+                std::vector<double> rv, tv;
+                for (auto& t : rt)
+                    rv.push_back(strtod(t.c_str(), nullptr));
+                for (auto& t : tt)
+                    tv.push_back(strtod(t.c_str(), nullptr));
+                std::string verdict;
+                try {
+                    PolarGrid l(rv, tv);
+                    std::string e = validGrid(l, s.R0, s.Rmax, false);
+                    long acc      = 0;
+                    for (int i = 0; i < l.nr(); i++)
+                        for (int j = 0; j < l.ntheta(); j++)
+                            acc += l.index(i, j);
+                    (void)acc;
+                    verdict = e.empty() ? "OK accepted-valid-grid " + std::to_string(l.nr()) + "x" + std::to_string(l.ntheta())
+                                        : "BAD accepted-invalid-grid: " + e;
+                }
+                catch (const std::exception& ex) {
+                    verdict = std::string("REJECTED ") + ex.what();
+                }
+                return verdict;
+            }
             if (writeR) {
                 std::ofstream f(fr);
                 for (auto& t : rt)
@@ -380,6 +464,7 @@ int main(int argc, char** argv)
             s.maxlev = c.i("maxlev", -1);
             s.fault = c.str("fault", "-");
             s.pos = c.i("pos", 0);
+            s.via = c.str("via", "file");
             runForked(s);
         }
     }
@@ -479,6 +564,30 @@ int main(int argc, char** argv)
                         }
                 }
         }
+    // angle-array faults: every position of the angle array x {file, array} constructor (the angle array does not depend on the
+    // radial parameters, so one radial base per angular size)
+    {
+        std::vector<int> ntes2 = thorough ? std::vector<int>{2, 3, 4, 5} : std::vector<int>{2, 3, 4};
+        for (int nte : ntes2) {
+            Spec b;
+            b.R0 = 0.1;
+            b.Rmax = 1.3;
+            b.nr_exp = 2;
+            b.ntheta_exp = nte;
+            b.kind = "fault";
+            const int na = (1 << nte) + 1;
+            for (const char* via : {"file", "array"})
+                for (const char* f : {"angle-shift", "angle-pair-shift", "angle-insert", "angle-delete", "angle-duplicate", "angle-swap",
+                                      "angle-negative", "nan-angle"})
+                    for (int pos = 0; pos < na; pos++) {
+                        b.fault = f;
+                        b.pos = pos;
+                        b.via = via;
+                        if (mine())
+                            runForked(b);
+                    }
+        }
+    }
     }
     printf("STAT cases %ld\nSTAT accepted %ld\nSTAT rejected %ld\nSTAT bad %ld\nSTAT crashed %ld\nSTAT distinct %zu\n", g_n, g_ok, g_rej,
            g_bad, g_crash, g_distinct.size());
